@@ -506,46 +506,87 @@ static size_t safec_fp_libc(out_fct_type out, const char *funcname,
     return idx;
 }
 
+// nan and inf: a sign or the '+' and ' ' flags as for numbers (nan is never
+// negative), padded with spaces even with the '0' flag
+static size_t safec_out_nonfinite(out_fct_type out, char *buffer, size_t idx,
+                                  size_t maxlen, double value,
+                                  unsigned int width, unsigned int flags) {
+    char buf[4];
+    size_t len = 0U;
+    const char *txt = (value != value)
+                          ? ((flags & FLAGS_UPPERCASE) ? "NAN" : "nan")
+                          : ((flags & FLAGS_UPPERCASE) ? "INF" : "inf");
+    buf[len++] = txt[2];
+    buf[len++] = txt[1];
+    buf[len++] = txt[0];
+    if (value == value && value < 0) {
+        buf[len++] = '-';
+    } else if (flags & FLAGS_PLUS) {
+        buf[len++] = '+';
+    } else if (flags & FLAGS_SPACE) {
+        buf[len++] = ' ';
+    }
+    return safec_out_rev(out, buffer, idx, maxlen, buf, len, width,
+                         flags & ~FLAGS_ZEROPAD);
+}
+
+// round value >= 0 to prec <= 9 decimals: the whole part and the fraction as
+// an integer below 10^prec
+static void safec_fround(double value, unsigned int prec, int *wholep,
+                         unsigned long *fracp) {
+    // powers of 10
+    static const double pow10[] = {1,         10,        100,     1000,
+                                   10000,     100000,    1000000, 10000000,
+                                   100000000, 1000000000};
+    int whole = (int)value;
+    double tmp = (value - whole) * pow10[prec];
+    unsigned long frac = (unsigned long)tmp;
+    double diff = tmp - frac;
+
+    if (diff > 0.5) {
+        ++frac;
+    } else if (diff < 0.5) {
+    } else if ((frac == 0U) || (frac & 1U)) {
+        // if halfway, round up if odd OR if last digit is 0
+        ++frac;
+    }
+    // handle rollover, e.g. case 0.99 with prec 1 is 1.0
+    if (prec && frac >= pow10[prec]) {
+        frac = 0;
+        ++whole;
+    }
+    if (prec == 0U) {
+        diff = value - (double)whole;
+        if (diff > 0.5) {
+            ++whole;
+        } else if (!(diff < 0.5) && (whole & 1)) {
+            // exactly 0.5 and ODD, then round up
+            // 1.5 -> 2, but 2.5 -> 2
+            ++whole;
+        }
+        frac = 0;
+    }
+    *wholep = whole;
+    *fracp = frac;
+}
+
 // internal ftoa for fixed decimal floating point
 static size_t safec_ftoa(out_fct_type out, const char *funcname, char *buffer,
                          size_t idx, size_t maxlen, double value,
                          unsigned int prec, unsigned int width,
                          unsigned int flags) {
     char buf[PRINTF_FTOA_BUFFER_SIZE];
-    size_t len = 0U, off = 0U;
-    double tmp;
-    double diff = 0.0;
+    size_t len = 0U, off = 0U, tail = 0U, zeros = 0U, total, i;
     unsigned long frac;
-    int whole;
+    int whole, rc;
     bool negative;
-
-    // powers of 10
-    static const double pow10[] = {1,         10,        100,     1000,
-                                   10000,     100000,    1000000, 10000000,
-                                   100000000, 1000000000};
+    char sign = 0;
     const unsigned maxprec = 9U;
 
     // test for special values
-    if (value != value)
-        return safec_out_rev(out, buffer, idx, maxlen,
-                             (flags & FLAGS_UPPERCASE) ? "NAN" : "nan", 3,
-                             width, flags);
-    if (isinf(value)) {
-        if (value < 0)
-            // reverse of -inf
-            return safec_out_rev(out, buffer, idx, maxlen,
-                                 (flags & FLAGS_UPPERCASE) ? "FNI-" : "fni-", 4,
-                                 width, flags);
-        else
-            // reverse of inf
-            return safec_out_rev(out, buffer, idx, maxlen,
-                                 (flags & FLAGS_PLUS)
-                                     ? (flags & FLAGS_UPPERCASE) ? "FNI+"
-                                                                 : "fni+"
-                                 : (flags & FLAGS_UPPERCASE) ? "FNI"
-                                                             : "fni",
-                                 (flags & FLAGS_PLUS) ? 4 : 3, width, flags);
-    }
+    if ((value != value) || isinf(value))
+        return safec_out_nonfinite(out, buffer, idx, maxlen, value, width,
+                                   flags);
     // test for very large values
     // standard printf behavior is to print EVERY whole number digit -- which
     // could be 100s of characters overflowing your buffers == bad
@@ -575,36 +616,18 @@ static size_t safec_ftoa(out_fct_type out, const char *funcname, char *buffer,
     if (!(flags & FLAGS_PRECISION)) {
         prec = PRINTF_DEFAULT_FLOAT_PRECISION;
     }
-    // limit precision to 9, cause a prec >= 10 can lead to overflow errors
-    while ((len < PRINTF_FTOA_BUFFER_SIZE) && (prec > maxprec)) {
-        buf[len++] = '0';
-        prec--;
+    // limit precision to 9, cause a prec >= 10 can lead to overflow errors.
+    // the further decimals are printed as 0
+    if (prec > maxprec) {
+        tail = prec - maxprec;
+        prec = maxprec;
     }
 
-    whole = (int)value;
-    tmp = (value - whole) * pow10[prec];
-    frac = (unsigned long)tmp;
-    diff = tmp - frac;
-
-    if (diff > 0.5) {
-        ++frac;
-        // handle rollover, e.g. case 0.99 with prec 1 is 1.0
-        if (frac >= pow10[prec]) {
-            frac = 0;
-            ++whole;
-        }
-    } else if (diff < 0.5) {
-    } else if ((frac == 0U) || (frac & 1U)) {
-        // if halfway, round up if odd OR if last digit is 0
-        ++frac;
-    }
+    safec_fround(value, prec, &whole, &frac);
 
     if (prec == 0U) {
-        diff = value - (double)whole;
-        if ((!(diff < 0.5) || (diff > 0.5)) && (whole & 1)) {
-            // exactly 0.5 and ODD, then round up
-            // 1.5 -> 2, but 2.5 -> 2
-            ++whole;
+        if (flags & FLAGS_HASH) {
+            buf[len++] = '.'; // the alternate form always has the point
         }
     } else {
         unsigned int count = prec;
@@ -634,19 +657,10 @@ static size_t safec_ftoa(out_fct_type out, const char *funcname, char *buffer,
         }
     }
 
-    // pad leading zeros
-    if (!(flags & FLAGS_LEFT) && (flags & FLAGS_ZEROPAD)) {
-        if (width && (negative || (flags & (FLAGS_PLUS | FLAGS_SPACE)))) {
-            width--;
-        }
-        while ((len < width) && (len < PRINTF_FTOA_BUFFER_SIZE)) {
-            buf[len++] = '0';
-        }
-    }
-
-    // strip leading zeros and dots
-    if ((flags & FLAGS_ADAPT_EXP) && !(flags & FLAGS_HASH)) {
+    // %g strips the trailing zeros of the fraction and a trailing point
+    if ((flags & FLAGS_ADAPT_EXP) && !(flags & FLAGS_HASH) && prec) {
         size_t olen = len;
+        tail = 0U;
         while (buf[off] == '0') {
             off++;
             len--;
@@ -659,19 +673,56 @@ static size_t safec_ftoa(out_fct_type out, const char *funcname, char *buffer,
         }
     }
 
-    // the text starts at buf[off] after the stripping
-    if (off + len < PRINTF_FTOA_BUFFER_SIZE) {
-        if (negative) {
-            buf[off + len++] = '-';
-        } else if (flags & FLAGS_PLUS) {
-            buf[off + len++] = '+'; // ignore the space if the '+' exists
-        } else if (flags & FLAGS_SPACE) {
-            buf[off + len++] = ' ';
-        }
+    if (negative) {
+        sign = '-';
+    } else if (flags & FLAGS_PLUS) {
+        sign = '+'; // ignore the space if the '+' exists
+    } else if (flags & FLAGS_SPACE) {
+        sign = ' ';
     }
 
-    return safec_out_rev(out, buffer, idx, maxlen, &buf[off], len, width,
-                         flags);
+    // the '0' flag fills the field after the sign. the zeros, like the
+    // decimals above 9, are emitted directly and not limited by the buffer
+    total = (sign ? 1U : 0U) + len + tail;
+    if ((flags & FLAGS_ZEROPAD) && !(flags & FLAGS_LEFT) && total < width) {
+        zeros = width - total;
+        total = width;
+    }
+    if (!(flags & FLAGS_LEFT)) {
+        for (i = total; i < width; i++) {
+            rc = out(' ', buffer, idx++, maxlen);
+            if (unlikely(rc < 0))
+                return rc;
+        }
+    }
+    if (sign) {
+        rc = out(sign, buffer, idx++, maxlen);
+        if (unlikely(rc < 0))
+            return rc;
+    }
+    while (zeros--) {
+        rc = out('0', buffer, idx++, maxlen);
+        if (unlikely(rc < 0))
+            return rc;
+    }
+    while (len) {
+        rc = out(buf[off + --len], buffer, idx++, maxlen);
+        if (unlikely(rc < 0))
+            return rc;
+    }
+    while (tail--) {
+        rc = out('0', buffer, idx++, maxlen);
+        if (unlikely(rc < 0))
+            return rc;
+    }
+    if (flags & FLAGS_LEFT) {
+        for (i = total; i < width; i++) {
+            rc = out(' ', buffer, idx++, maxlen);
+            if (unlikely(rc < 0))
+                return rc;
+        }
+    }
+    return idx;
 }
 
 #ifdef PRINTF_SUPPORT_LONG_DOUBLE
@@ -742,9 +793,8 @@ static size_t safec_ftoa_long(out_fct_type out, const char *funcname,
                               unsigned int width, unsigned int flags,
                               const char *format) {
     if (value != value)
-        return safec_out_rev(out, buffer, idx, maxlen,
-                             (flags & FLAGS_UPPERCASE) ? "NAN" : "nan", 3,
-                             width, flags);
+        return safec_out_nonfinite(out, buffer, idx, maxlen, (double)value,
+                                   width, flags);
     return safec_fp_libc(out, funcname, buffer, idx, maxlen, value, true, prec,
                          width, flags, format);
 }
@@ -778,9 +828,8 @@ static inline size_t safec_atoa(out_fct_type out, const char *funcname,
                                 unsigned int width, unsigned int flags,
                                 const char *format) {
     if (value != value)
-        return safec_out_rev(out, buffer, idx, maxlen,
-                             (flags & FLAGS_UPPERCASE) ? "NAN" : "nan", 3,
-                             width, flags);
+        return safec_out_nonfinite(out, buffer, idx, maxlen, (double)value,
+                                   width, flags);
     return safec_fp_libc(out, funcname, buffer, idx, maxlen,
                          (safec_fp_t)value, false, prec, width, flags, format);
 }
